@@ -306,7 +306,7 @@ class Vector(AutoSerialize):
             if isinstance(dim_idx, slice):
                 start, stop, step = dim_idx.indices(dim_size)
                 return np.arange(start, stop, step)
-            elif isinstance(dim_idx, (np.ndarray, list)):
+            elif isinstance(dim_idx, (np.ndarray, list, tuple, range)):
                 idx = np.asarray(dim_idx)
                 if np.any((idx < 0) | (idx >= dim_size)):
                     raise IndexError(f"Index out of bounds for axis with size {dim_size}")
@@ -317,7 +317,9 @@ class Vector(AutoSerialize):
                         f"Index {dim_idx} out of bounds for axis with size {dim_size}"
                     )
                 return np.array([dim_idx])
-            return np.arange(dim_size)
+            elif dim_idx is Ellipsis:
+                return np.arange(dim_size)
+            raise TypeError(f"Unsupported index type {type(dim_idx).__name__}")
 
         # Get indices for each dimension
         indices_arrays = [get_indices(i, s) for i, s in zip(indices, self._shape)]
@@ -374,7 +376,7 @@ class Vector(AutoSerialize):
             if isinstance(dim_idx, slice):
                 start, stop, step = dim_idx.indices(dim_size)
                 return np.arange(start, stop, step)
-            elif isinstance(dim_idx, (np.ndarray, list)):
+            elif isinstance(dim_idx, (np.ndarray, list, tuple, range)):
                 idx = np.asarray(dim_idx)
                 if np.any((idx < 0) | (idx >= dim_size)):
                     raise IndexError(f"Index out of bounds for axis with size {dim_size}")
@@ -385,7 +387,9 @@ class Vector(AutoSerialize):
                         f"Index {dim_idx} out of bounds for axis with size {dim_size}"
                     )
                 return np.array([dim_idx])
-            return np.arange(dim_size)
+            elif dim_idx is Ellipsis:
+                return np.arange(dim_size)
+            raise TypeError(f"Unsupported index type {type(dim_idx).__name__}")
 
         # Get indices for each dimension
         indices_arrays = [get_indices(i, s) for i, s in zip(indices, self._shape)]
@@ -449,7 +453,7 @@ class Vector(AutoSerialize):
 
         # Convert lists/arrays to ndarray
         idx_converted: Tuple[Union[int, slice, np.ndarray[Any, np.dtype[Any]]], ...] = tuple(
-            np.asarray(i) if isinstance(i, (list, np.ndarray)) else i for i in normalized
+            np.asarray(i) if isinstance(i, (list, tuple, range, np.ndarray)) else i for i in normalized
         )
 
         # Check if we should return a numpy array (all indices are integers)
@@ -468,11 +472,13 @@ class Vector(AutoSerialize):
             if isinstance(dim_idx, slice):
                 start, stop, step = dim_idx.indices(dim_size)
                 return np.arange(start, stop, step)
-            elif isinstance(dim_idx, (np.ndarray, list)):
+            elif isinstance(dim_idx, (np.ndarray, list, tuple, range)):
                 return np.asarray(dim_idx)
             elif isinstance(dim_idx, (int, np.integer)):
                 return np.array([dim_idx])
-            return np.arange(dim_size)
+            elif dim_idx is Ellipsis:
+                return np.arange(dim_size)
+            raise TypeError(f"Unsupported index type {type(dim_idx).__name__}")
 
         # Get indices for each dimension
         full_idx = list(idx_converted) + [slice(None)] * (len(self.shape) - len(idx_converted))
@@ -521,7 +527,7 @@ class Vector(AutoSerialize):
 
         # Convert lists/arrays to ndarray
         idx_converted: Tuple[Union[int, slice, np.ndarray[Any, np.dtype[Any]]], ...] = tuple(
-            np.asarray(i) if isinstance(i, (list, np.ndarray)) else i for i in normalized
+            np.asarray(i) if isinstance(i, (list, tuple, range, np.ndarray)) else i for i in normalized
         )
 
         # Missing trailing axes address all of their cells, as in __getitem__
@@ -559,7 +565,7 @@ class Vector(AutoSerialize):
                 if isinstance(dim_idx, slice):
                     start, stop, step = dim_idx.indices(dim_size)
                     return np.arange(start, stop, step)
-                elif isinstance(dim_idx, (np.ndarray, list)):
+                elif isinstance(dim_idx, (np.ndarray, list, tuple, range)):
                     idx = np.asarray(dim_idx)
                     if np.any((idx < 0) | (idx >= dim_size)):
                         raise IndexError(f"Index out of bounds for axis with size {dim_size}")
@@ -568,7 +574,9 @@ class Vector(AutoSerialize):
                     if dim_idx < 0 or dim_idx >= dim_size:
                         raise IndexError(f"Index out of bounds for axis with size {dim_size}")
                     return np.array([dim_idx])
-                return np.arange(dim_size)
+                elif dim_idx is Ellipsis:
+                    return np.arange(dim_size)
+                raise TypeError(f"Unsupported index type {type(dim_idx).__name__}")
 
             indices_arrays = [get_indices(i, s) for i, s in zip(idx_converted, self._shape)]
             total_indices = np.prod([len(i) for i in indices_arrays])
